@@ -255,7 +255,7 @@ class Ipmitool(object):
 
         cmd += self._build_ipmitool_priv_level(self._session.priv_level)
 
-        if self._cipher:
+        if self._cipher is not None:
             cmd += (' -C %s' % self._cipher)
         if self._session.auth_type == Session.AUTH_TYPE_NONE:
             cmd += ' -P ""'
